@@ -797,6 +797,77 @@ func TestVerifReplay(t *testing.T) {
 	return true, out // non-zero exit for another reason (e.g. os.Exit inside the code under test)
 }
 
+// nativeWitness runs the given harnesses natively, each with its witness replay file, in one
+// test binary. It returns the index of the first harness whose native run failed (-1: all passed).
+func nativeWitness(repo, prop string, hfs []harnessFile, pkgDir string, harnesses, files []string) (int, string) {
+	tmp, _ := os.MkdirTemp("", "gosym-witness-")
+	defer os.RemoveAll(tmp)
+	_, paths, err := overlayFor(repo, prop, hfs)
+	if err != nil {
+		return -1, err.Error()
+	}
+	pkgName := ""
+	for _, hf := range hfs {
+		if hf.PkgDir == pkgDir {
+			b, _ := os.ReadFile(hf.Src)
+			for _, line := range strings.Split(string(b), "\n") {
+				if strings.HasPrefix(line, "package ") {
+					pkgName = strings.TrimSpace(strings.TrimPrefix(line, "package "))
+					break
+				}
+			}
+		}
+	}
+	var sb strings.Builder
+	fmt.Fprintf(&sb, "package %s\n\nimport (\n\t\"fmt\"\n\t\"testing\"\n\n\t\"github.com/anz-bank/sysl/pkg/zzverif/nd\"\n)\n\n", pkgName)
+	sb.WriteString("func TestVerifWitness(t *testing.T) {\n")
+	for i, h := range harnesses {
+		fmt.Fprintf(&sb, "\tfmt.Println(\"VERIF-WITNESS-BEGIN %d\")\n\tnd.Load(%q)\n\t%s()\n", i, files[i], h)
+	}
+	sb.WriteString("\tfmt.Println(\"VERIF-WITNESS-ALL-DONE\")\n}\n")
+	testFile := filepath.Join(tmp, "witness_test.go")
+	os.WriteFile(testFile, []byte(sb.String()), 0o644)
+	paths[filepath.Join(repo, pkgDir, "zz_verif_witness_test.go")] = testFile
+	ovj, _ := json.Marshal(map[string]interface{}{"Replace": paths})
+	ovFile := filepath.Join(tmp, "overlay.json")
+	os.WriteFile(ovFile, ovj, 0o644)
+	cmd := exec.Command("timeout", "600", "go", "test", "-vet=off", "-count=1", "-v", "-overlay", ovFile, "-run", "^TestVerifWitness$", "./"+pkgDir)
+	cmd.Dir = repo
+	cmd.Env = append(os.Environ(), "GOFLAGS=-mod=mod", "GOPROXY=off", "GOSUMDB=off", "GOTOOLCHAIN=local")
+	outb, _ := cmd.CombinedOutput()
+	out := string(outb)
+	if strings.Contains(out, "VERIF-WITNESS-ALL-DONE") {
+		return -1, out
+	}
+	if strings.Contains(out, "[build failed]") || strings.Contains(out, "[setup failed]") {
+		fmt.Fprintln(os.Stderr, "MACHINERY: witness test build failed for", pkgDir, "\n", tailStr(out, 1500))
+		return -1, out
+	}
+	last := -1
+	for i := range harnesses {
+		if strings.Contains(out, fmt.Sprintf("VERIF-WITNESS-BEGIN %d\n", i)) {
+			last = i
+		}
+	}
+	if last < 0 {
+		fmt.Fprintln(os.Stderr, "MACHINERY: witness test did not start for", pkgDir, "\n", tailStr(out, 1500))
+		return -1, out
+	}
+	if strings.Contains(out, "VERIF-ASSUME-FALSE") {
+		// the witness left the harness's assumed region natively: not a failure of the property
+		fmt.Fprintln(os.Stderr, "note: witness replay diverged at an assumption in", harnesses[last])
+		return -1, out
+	}
+	return last, out
+}
+
+func tailStr(s string, n int) string {
+	if len(s) > n {
+		return s[len(s)-n:]
+	}
+	return s
+}
+
 // ---------------------------------------------------------------- report
 
 func report(repo, prop, tier string, results []*WorkerResult, hfs []harnessFile, sel []harnessSpec, wall time.Duration, noReplay bool) int {
@@ -933,6 +1004,51 @@ func report(repo, prop, tier string, results []*WorkerResult, hfs []harnessFile,
 			}
 		}
 	}
+	// translator validation: one witness model per harness (a path on which every
+	// assertion held) is replayed natively; the real build must agree.
+	witnessOK, witnessBad := 0, 0
+	if !noReplay {
+		type wit struct{ harness, file string }
+		byPkg := map[string][]wit{}
+		seenH := map[string]bool{}
+		for k, r := range results {
+			if r.Error != "" || len(r.Samples) == 0 || seenH[r.Harness] || len(r.Candidates) > 0 {
+				continue
+			}
+			seenH[r.Harness] = true
+			rp := writeReplay(prop, tier, Candidate{Harness: r.Harness, Label: "witness", Kind: "witness", Values: r.Samples[0]})
+			byPkg[sel[k].pkg] = append(byPkg[sel[k].pkg], wit{r.Harness, rp})
+		}
+		var pkgs []string
+		for p := range byPkg {
+			pkgs = append(pkgs, p)
+		}
+		sort.Strings(pkgs)
+		for _, p := range pkgs {
+			var hs, fs []string
+			for _, w := range byPkg[p] {
+				hs = append(hs, w.harness)
+				fs = append(fs, w.file)
+			}
+			failedAt, out := nativeWitness(repo, prop, hfs, p, hs, fs)
+			for i, w := range byPkg[p] {
+				switch {
+				case failedAt < 0 || i < failedAt:
+					witnessOK++
+					os.Remove(w.file)
+				case i == failedAt:
+					witnessBad++
+					violations++
+					exit = 1
+					os.WriteFile(strings.TrimSuffix(w.file, ".json")+".out.txt", []byte(out), 0o644)
+					lines = append(lines, fmt.Sprintf("VIOLATION property=%s replay=%s", prop, w.file))
+					lines = append(lines, fmt.Sprintf("  harness=%s label=native-run-of-a-witness-model-fails kind=witness", w.harness))
+				default:
+					os.Remove(w.file) // not reached: the test binary stopped at the failing harness
+				}
+			}
+		}
+	}
 	for _, h := range sel {
 		if n, seen := reachByHarness[h.name]; seen && n == 0 && !vacReported[h.name] {
 			vacReported[h.name] = true
@@ -973,7 +1089,8 @@ func report(repo, prop, tier string, results []*WorkerResult, hfs []harnessFile,
 		"coverage": map[string]interface{}{
 			"states":                        totalPaths,
 			"transitions":                   totalForks + totalPaths,
-			"traces_validated_against_impl": len(knownHit) + violations + len(spurious),
+			"traces_validated_against_impl": witnessOK + witnessBad + len(knownHit) + violations + len(spurious),
+			"witness_models_replayed_natively_ok": witnessOK,
 			"evaluations":                   totalQueries,
 			"distinct_nontrivial":           totalPaths,
 			"rule":                          "states = distinct feasible symbolic paths (each a conjunction of branch decisions over the nd variables, decided by the solver); transitions = symbolic forks decided + path completions; evaluations = SMT check-sat queries; a path is non-trivial when its path condition is satisfiable (infeasible sides are never entered)",
